@@ -108,7 +108,8 @@ def run_files(built, files, structured, mode, timeout, trace=False, idbase=None,
         for rel, d in files.items():
             box.write(rel, d)
         cfg = box.write("Breadlog.yaml", core.make_config(structured=True if structured else None, use_cache=False))
-        rec = core.run_breadlog(built, box, cfg, check=(mode == "check"), timeout=timeout, trace=trace, rules=rules, shim=bool(rules))
+        rec = core.run_breadlog(built, box, cfg, check=(mode == "check"), timeout=timeout, trace=trace, rules=rules, shim=bool(rules),
+                                probe_blocked=8)
         after = {}
         for rel in files:
             try:
@@ -119,6 +120,8 @@ def run_files(built, files, structured, mode, timeout, trace=False, idbase=None,
 
 
 def bad(rec):
+    if rec.timed_out and rec.blocked:
+        return "blocked"      # no thread runnable, no CPU consumed while being watched: the process waits for itself
     if rec.timed_out:
         return "timeout"
     if rec.panicked():
@@ -198,6 +201,37 @@ def work(job):
             res["counters"]["parser_entries_observed"] = res["counters"].get("parser_entries_observed", 0) + sum(len(t["entries"]) for t in rec.trace)
         res["counters"]["max_cpu_ratio_x1000"] = max(res["counters"].get("max_cpu_ratio_x1000", 0), int(1000 * rec.cpu / budget))
         what = bad(rec)
+        if what == "blocked":
+            # a hang that is not a matter of speed. Reduced by halving to a small set of files that still blocks (not to one file: the
+            # condition may lie between files), and reported once per batch and mode.
+            cur = dict(files)
+            steps = 0
+            while len(cur) > 1 and steps < 12:
+                names = sorted(cur)
+                parts = [names[:len(names) // 2], names[len(names) // 2:]]
+                if len(names) > 3:
+                    parts.append(names[len(names) // 4: len(names) // 4 + (len(names) + 1) // 2])
+                hit = None
+                for part in parts:
+                    r2, _ = run_files(built, {n: cur[n] for n in part}, structured, mode, timeout=60)
+                    steps += 1
+                    res["evaluations"] += 1
+                    if bad(r2) == "blocked":
+                        hit = part
+                        break
+                if hit is None:
+                    break
+                cur = {n: cur[n] for n in hit}
+            keep = {}
+            for n in sorted(cur):
+                if sum(len(d) for d in keep.values()) + len(cur[n]) > 200000:
+                    break
+                keep[n] = cur[n]
+            res["violations"].append({"signature": "C17.blocked-without-consuming-cpu|%s|%s" % (mode, "one-file" if len(cur) == 1 else "several-files"),
+                                      "detail": {"files_in_reduced_set": len(cur), "first_file_head": cur[sorted(cur)[0]][:300], "mode": mode,
+                                                 "structured": structured, "cpu_s": rec.cpu, "stdout_tail": rec.out[-300:]},
+                                      "case": {"files": keep if len(keep) == len(cur) else dict(list(files.items())[:40]), "structured": structured, "mode": mode}})
+            continue
         if what == "timeout" and rec.cpu < budget:
             res["inconclusive"]["wall-clock watchdog fired with CPU under budget"] = 1
             continue
@@ -419,6 +453,10 @@ def replay_witness(w, ck=None, built=None):
         return bool(special_work((built, c["special"][0], c["special"][1]))["violations"])
     if c.get("skipjob"):
         return bool(skip_work((built, c["skipjob"][0], c["skipjob"][1]))["violations"])
+    if c.get("files"):
+        dec = lambda d: bytes.fromhex(d["hex"]) if isinstance(d, dict) else (d.encode("utf-8") if isinstance(d, str) else d)
+        rec, _ = run_files(built, {rel: dec(d) for rel, d in c["files"].items()}, c["structured"], c["mode"], 90)
+        return bad(rec) is not None
     d = c["data"]
     data = bytes.fromhex(d["hex"]) if isinstance(d, dict) else d.encode("utf-8")
     rec, _ = run_files(built, {"src/m.rs": data}, c["structured"], c["mode"], 120)
